@@ -499,7 +499,7 @@ def _ctor_params_instantiated(prog, chk, fns):
 
 
 
-def _return_context_rule(prog, chk, fns):
+def _return_context_rule(prog, chk, fns, rule='R16.G'):
     """R16.G — "return <value> in a void function, bare return in a non-void one" is decided by visit(ReturnStatement) from analyser
     members that describe the callable being analysed.  Every visitor of a declaration that has a body of statements (function,
     method, constructor, destructor) sets each of those members itself before it visits the body: a visitor that does not leaves the
@@ -528,7 +528,7 @@ def _return_context_rule(prog, chk, fns):
         for m in members:
             n += 1
             sets = [x for x in SX.walk(f.body, into_lambdas=False) for w in [SX.write_target(x)] if w and w[2] == '=' and SX.is_this_member(SX.strip(w[0]), m)]
-            chk.ob('R16.G', f, f.ln, bool(sets),
+            chk.ob(rule, f, f.ln, bool(sets),
                    'visit(%s) analyses a body of statements but does not set %s, which visit(ReturnStatement) decides from: returns in that body are checked against what the last callable '
                    'left behind' % (tn.split('::')[-1], m), key='return-context:%s:%s' % (tn.split('::')[-1], m))
     chk.count('callable-body visitors × return-context members', n, 6)
